@@ -393,3 +393,9 @@ func vJSONKeys(b []byte) []string {
 	return keys
 }
 func vMapOrder(symbolic bool) {}
+
+func vChdir(dir string) { os.Chdir(dir) }
+func vTwoDirs() (string, string) {
+	d, _ := os.Getwd()
+	return d, os.TempDir()
+}
